@@ -1803,11 +1803,13 @@ LOOP:
 						r += rune(c - 'A' + 10)
 					default:
 						l.src = l.src[p:]
+						l.column += cols
 						return l.errorf("invalid character %q in hexadecimal escape", c)
 					}
 				}
 				if 0xD800 <= r && r < 0xE000 || r > '\U0010FFFF' {
 					l.src = l.src[p:]
+					l.column += cols
 					return l.errorf("escape is invalid Unicode code point U+%X", r)
 				}
 				p += 2 + n
@@ -1819,10 +1821,12 @@ LOOP:
 				for i := range 2 {
 					if p+2+i == len(l.src) {
 						l.src = l.src[p:]
+						l.column += cols
 						return l.errorf("string not terminated")
 					}
 					if c := l.src[p+2+i]; !isHexDigit(c) {
 						l.src = l.src[p:]
+						l.column += cols
 						return l.errorf("invalid character %q in hexadecimal escape", c)
 					}
 				}
@@ -1833,33 +1837,39 @@ LOOP:
 				for i := range 2 {
 					if p+2+i == len(l.src) {
 						l.src = l.src[p:]
+						l.column += cols
 						return l.errorf("string not terminated")
 					}
 					r = r * 8
 					c = l.src[p+2+i]
 					if c < '0' || c > '7' {
 						l.src = l.src[p:]
+						l.column += cols
 						return l.errorf("invalid character %q in octal escape", c)
 					}
 					r += rune(c - '0')
 				}
 				if r > 255 {
 					l.src = l.src[p:]
+					l.column += cols
 					return l.errorf("octal escape value %d > 255", r)
 				}
 				p += 4
 				cols += 4
 			default:
 				l.src = l.src[p:]
+				l.column += cols
 				return l.errorf("unknown escape")
 			}
 		case '\n':
 			l.src = l.src[p:]
+			l.column += cols
 			return l.errorf("newline in string")
 		default:
 			r, s := utf8.DecodeRune(l.src[p:])
 			if r == utf8.RuneError && s == 1 {
 				l.src = l.src[p:]
+				l.column += cols
 				return l.errorf("invalid UTF-8 encoding")
 			} else if r == BOM {
 				return l.errorf(bomErrorMsg)
@@ -1900,6 +1910,7 @@ STRING:
 				l.src = l.src[p:]
 				return l.errorf("invalid UTF-8 encoding")
 			} else if r == BOM {
+				l.src = l.src[p:]
 				return l.errorf(bomErrorMsg)
 			}
 			p += s
